@@ -40,20 +40,21 @@ type nbackend struct {
 func (b *nbackend) AddrInfo() string { return fmt.Sprintf("%s:%d", b.Addr, b.Port) }
 
 type ncluster struct {
-	Name       string
-	Subs       map[string][]*nbackend // sub-cluster -> backends
-	SubWeights map[string]int
-	RetryMax   int
-	CrossRetry int
-	RetryLevel int
-	MaxIdle    int // MaxIdleConnsPerHost
-	RespHdrTO  int // ms
-	ConnTO     int // ms
-	ReadCliTO  int // ms
-	WriteCliTO int
-	ReadAgain  int
-	ReqBuf     int
-	ResFlush   int // ResFlushInterval ms (-1 off, 0 default)
+	Name          string
+	Subs          map[string][]*nbackend // sub-cluster -> backends
+	SubWeights    map[string]int
+	RetryMax      int
+	CrossRetry    int
+	RetryLevel    int
+	MaxIdle       int // MaxIdleConnsPerHost
+	RespHdrTO     int // ms
+	ConnTO        int // ms
+	ReadCliTO     int // ms
+	WriteCliTO    int
+	ReadAgain     int
+	ReqBuf        int
+	ResFlush      int // ResFlushInterval ms (-1 off, 0 default)
+	CancelOnClose bool
 }
 
 type nconf struct {
@@ -137,7 +138,7 @@ func (c *nconf) writeData(root string) {
 			"CheckConf":   map[string]interface{}{"Schem": "tcp", "FailNum": 1000, "CheckInterval": 1000},
 			"GslbBasic":   map[string]interface{}{"CrossRetry": cl.CrossRetry, "RetryMax": cl.RetryMax, "HashConf": map[string]interface{}{"HashStrategy": 1, "SessionSticky": false}},
 			"ClusterBasic": map[string]interface{}{"TimeoutReadClient": cl.ReadCliTO, "TimeoutWriteClient": cl.WriteCliTO, "TimeoutReadClientAgain": cl.ReadAgain,
-				"ReqWriteBufferSize": cl.ReqBuf, "ReqFlushInterval": 0, "ResFlushInterval": cl.ResFlush, "CancelOnClientClose": false},
+				"ReqWriteBufferSize": cl.ReqBuf, "ReqFlushInterval": 0, "ResFlushInterval": cl.ResFlush, "CancelOnClientClose": cl.CancelOnClose},
 		}
 		gslb[cl.Name] = cl.SubWeights
 		subs := map[string]interface{}{}
